@@ -358,8 +358,17 @@ fn lit(g: &mut G) -> CE {
 pub fn gen_expr(g: &mut G, depth: u32, ex: &Excl, in_tern: bool) -> CE {
     if depth == 0 || g.chance(1, 5) {
         if g.chance(1, 12) {
-            let forms: [(&str, i64); 5] =
-                [("sizeof(char)", 1), ("sizeof(short)", 2), ("sizeof(int)", 2), ("sizeof(zz8)", 5), ("sizeof(zz16)", 6)];
+            // arrays of one element too: an array is not told from a pointer or a scalar by its size
+            let forms: [(&str, i64); 8] = [
+                ("sizeof(char)", 1),
+                ("sizeof(short)", 2),
+                ("sizeof(int)", 2),
+                ("sizeof(zz8)", 5),
+                ("sizeof(zz16)", 6),
+                ("sizeof(zz1)", 1),
+                ("sizeof(zzs1)", 2),
+                ("sizeof(zzc)", 1),
+            ];
             let (t, v) = forms[g.below(forms.len())];
             return CE::Sizeof(t.to_string(), v);
         }
@@ -460,7 +469,7 @@ fn strip_blanks(t: &str) -> String {
 
 pub fn source(case: &Case) -> String {
     let t = print(&case.e, 0);
-    let pre = "char zz8[5];\nshort zz16[3];\n";
+    let pre = "char zz8[5];\nshort zz16[3];\nchar zz1[1];\nshort zzs1[1];\nchar zzc;\n";
     match case.pos {
         Pos::ConstShort => format!("{}const short v = {};\nvoid main() {{ }}\n", pre, t),
         Pos::ConstChar => format!("{}const char v = {};\nvoid main() {{ }}\n", pre, t),
